@@ -471,4 +471,237 @@ theorem parseSigMap_signedBS (sig : Bytes) (hp : ∀ c ∈ sig, isPlain c = true
   rw [parse_bs sig hp]
   simp [numKeys, lookup, kCamliSig]
 
+/-! ## a JSON document whose value is an object ends with `}` (and white space) -/
+
+theorem stepEnd_ev_top (stk : List Frame) (c : Nat) (m : List (Bytes × JV))
+    (h : (stepEnd ⟨.ev, stk⟩ c).mode = .top (.obj m)) : c = 125 := by
+  unfold stepEnd at h
+  simp only at h
+  split at h
+  · cases h
+  · cases stk with
+    | nil => simp [St.error] at h
+    | cons f r =>
+      cases f with
+      | objC d k => simp only at h; split at h <;> simp [St.error] at h
+      | objE d =>
+        simp only at h
+        split at h
+        · cases h
+        · split at h
+          · assumption
+          · simp [St.error] at h
+      | arr d =>
+        simp only at h
+        split at h
+        · cases h
+        · split at h
+          · have := (complete_mode_top _ _ _ h).2; cases this
+          · simp [St.error] at h
+      | objK d => simp [St.error] at h
+      | objV d k => simp [St.error] at h
+
+theorem endNum_top (raw : Bytes) (stk : List Frame) (c : Nat) (m : List (Bytes × JV))
+    (h : (endNum raw stk c).mode = .top (.obj m)) : c = 125 := by
+  unfold endNum at h
+  split at h
+  · cases stk with
+    | nil =>
+      simp only [complete, stepEnd] at h
+      split at h <;> simp [St.error] at h
+    | cons f r =>
+      cases f with
+      | arr d => exact stepEnd_ev_top _ _ _ (by simpa [complete] using h)
+      | objV d k => exact stepEnd_ev_top _ _ _ (by simpa [complete] using h)
+      | objK d => simp [complete, stepEnd, St.error] at h
+      | objC d k => simp [complete, stepEnd, St.error] at h
+      | objE d => simp [complete, stepEnd, St.error] at h
+  · simp [St.error] at h
+
+theorem beginValue_not_top (stk : List Frame) (c : Nat) (v : JV) : (beginValue stk c).mode ≠ .top v := by
+  unfold beginValue push
+  intro h
+  repeat' split at h
+  all_goals simp [St.error] at h
+
+/-- the only bytes after which the document is complete with an object value: `}`, or white space
+after it already was -/
+theorem step_top_obj (s : St) (c : Nat) (m : List (Bytes × JV))
+    (h : (step s c).mode = .top (.obj m)) : c = 125 ∨ (isWs c = true ∧ s.mode = .top (.obj m)) := by
+  obtain ⟨mode, stk⟩ := s
+  cases mode with
+  | err => simp [step, St.error] at h
+  | top v =>
+    simp only [step, stepEnd] at h
+    split at h
+    · rename_i hw; exact Or.inr ⟨hw, h⟩
+    · simp [St.error] at h
+  | ev => exact Or.inl (stepEnd_ev_top stk c m (by simpa [step] using h))
+  | bv =>
+    simp only [step] at h
+    split at h
+    · cases h
+    · exact absurd h (beginValue_not_top _ _ _)
+  | bvOrEmpty =>
+    simp only [step] at h
+    split at h
+    · cases h
+    · split at h
+      · cases stk with
+        | nil => simp [St.error] at h
+        | cons f r =>
+          cases f <;> simp [St.error] at h
+          · have := (complete_mode_top _ _ _ h).2; cases this
+      · exact absurd h (beginValue_not_top _ _ _)
+  | bsOrEmpty =>
+    simp only [step] at h
+    split at h
+    · cases h
+    · split at h
+      · left; assumption
+      · split at h <;> simp [St.error] at h
+  | bs =>
+    simp only [step] at h
+    split at h
+    · cases h
+    · split at h <;> simp [St.error] at h
+  | str raw sub =>
+    simp only [step] at h
+    cases sub with
+    | normal =>
+      simp only [stepStr] at h
+      split at h
+      · have := (complete_mode_top _ _ _ h).2; cases this
+      · split at h
+        · cases h
+        · split at h <;> simp [St.error] at h
+    | esc =>
+      simp only [stepStr] at h
+      split at h
+      · cases h
+      · split at h <;> simp [St.error] at h
+    | u n =>
+      simp only [stepStr] at h
+      split at h <;> simp [St.error] at h
+  | num raw ph =>
+    simp only [step] at h
+    cases ph <;> simp only [stepNum] at h
+    all_goals (repeat' split at h)
+    all_goals first
+      | (left; exact endNum_top _ _ _ _ h)
+      | (simp [St.error] at h)
+  | lit rest k =>
+    simp only [step] at h
+    cases rest with
+    | nil => simp [St.error] at h
+    | cons r rs =>
+      simp only at h
+      split at h
+      · split at h
+        · have := (complete_mode_top _ _ _ h).2
+          cases k <;> simp [LitKind.val] at this
+        · cases h
+      · simp [St.error] at h
+
+theorem run_top_obj (data : Bytes) (s : St) (m : List (Bytes × JV))
+    (h : (run s data).mode = .top (.obj m)) :
+    (s.mode = .top (.obj m) ∧ ∀ c ∈ data, isWs c = true) ∨
+    ∃ pre ws, data = pre ++ 125 :: ws ∧ ∀ c ∈ ws, isWs c = true := by
+  induction data generalizing s with
+  | nil => left; exact ⟨h, by simp⟩
+  | cons c rest ih =>
+    rw [run_cons] at h
+    rcases ih _ h with ⟨h1, h2⟩ | ⟨pre, ws, h1, h2⟩
+    · rcases step_top_obj s c m h1 with hc | ⟨hw, hs⟩
+      · right; exact ⟨[], rest, by simp [hc], h2⟩
+      · left; exact ⟨hs, by intro d hd; cases hd with | head => exact hw | tail _ hd => exact h2 d hd⟩
+    · right; exact ⟨c :: pre, ws, by simp [h1], h2⟩
+
+theorem finish_obj_mode (s : St) (m : List (Bytes × JV)) (h : finish s = some (.obj m)) :
+    s.mode = .top (.obj m) := by
+  unfold finish at h
+  split at h
+  · rename_i v hv
+    injection h with h; subst h
+    rcases step_top_obj s 32 _ hv with hc | ⟨_, hs⟩
+    · cases hc
+    · exact hs
+  · cases h
+
+/-- a document that unmarshals to an object ends with `}` followed by JSON white space only -/
+theorem parseJSON_obj_ends_with_brace (data : Bytes) (m : List (Bytes × JV))
+    (h : parseJSON data = some (.obj m)) :
+    ∃ pre ws, data = pre ++ 125 :: ws ∧ ∀ c ∈ ws, isWs c = true := by
+  rcases run_top_obj data St.init m (finish_obj_mode _ _ h) with ⟨h1, _⟩ | h2
+  · simp [St.init] at h1
+  · exact h2
+
+/-! ## what `trimRightSpace` leaves does not end in white space -/
+
+theorem trimRev_no_space (fuel : Nat) (r : Bytes) (h : r.length ≤ fuel) :
+    spaceSuffixLen (trimRev fuel r) = 0 := by
+  induction fuel generalizing r with
+  | zero =>
+    have : r = [] := by cases r <;> simp_all
+    subst this; rfl
+  | succ f ih =>
+    unfold trimRev
+    split
+    · assumption
+    · rename_i hn
+      apply ih
+      have hne : spaceSuffixLen r ≠ 0 := by intro e; exact hn e
+      simp only [List.length_drop]
+      omega
+
+theorem spaceSuffixLen_zero_head (c : Nat) (rest : Bytes) (h : spaceSuffixLen (c :: rest) = 0) :
+    isAsciiSpace c = false := by
+  cases hc : isAsciiSpace c with
+  | false => rfl
+  | true =>
+    cases rest with
+    | nil => simp [spaceSuffixLen, hc] at h
+    | cons d rest =>
+      cases rest with
+      | nil => simp [spaceSuffixLen, hc] at h
+      | cons e rest => simp [spaceSuffixLen, hc] at h
+
+theorem isAsciiSpace_of_isWs (c : Nat) (h : isWs c = true) : isAsciiSpace c = true := by
+  simp only [isWs, isAsciiSpace, Bool.or_eq_true, beq_iff_eq, Bool.and_eq_true, decide_eq_true_eq] at *
+  omega
+
+/-- the last byte of a trimmed string is not JSON white space -/
+theorem trimRightSpace_last (s : Bytes) (c : Nat) (h : (trimRightSpace s).getLast? = some c) :
+    isWs c = false := by
+  unfold trimRightSpace at h
+  rw [List.getLast?_reverse] at h
+  have hz := trimRev_no_space s.length s.reverse (by simp)
+  cases ht : trimRev s.length s.reverse with
+  | nil => simp [ht] at h
+  | cons a rest =>
+    rw [ht] at h hz
+    simp at h; subst h
+    have := spaceSuffixLen_zero_head _ _ hz
+    cases hw : isWs a with
+    | false => rfl
+    | true => rw [isAsciiSpace_of_isWs a hw] at this; cases this
+
+/-- a trimmed string that unmarshals to an object ends with `}` -/
+theorem trimmed_obj_last (s : Bytes) (m : List (Bytes × JV))
+    (h : parseJSON (trimRightSpace s) = some (.obj m)) : (trimRightSpace s).getLast? = some 125 := by
+  obtain ⟨pre, ws, he, hws⟩ := parseJSON_obj_ends_with_brace _ _ h
+  cases hl : ws.getLast? with
+  | none =>
+    have : ws = [] := by simpa using hl
+    subst this
+    rw [he]; simp
+  | some w =>
+    have hmem : w ∈ ws := List.mem_of_getLast? hl
+    have : (trimRightSpace s).getLast? = some w := by
+      rw [he]
+      have : pre ++ 125 :: ws = (pre ++ [125]) ++ ws := by simp
+      rw [this, List.getLast?_append, hl]; simp
+    have := trimRightSpace_last s w this
+    rw [hws w hmem] at this; cases this
+
 end Pk.JsonSign
